@@ -214,7 +214,7 @@ CLAIMS = {
              "(guard counts in the evidence).",
         tech="Lean 4 theorems (sortedDedup, gcd, pairwise non-overlap) + differential correspondence"),
     "C14": dict(level=PV, ref="§7 C14",
-        text="PARTIAL (pandas' CSV text layer - dtype inference, NaN handling, date parsing, float formatting - is library behaviour outside the model, correspondence only; the row algebra is proved). 24 kernel-checked theorems, none open. Row-algebra model of the wide/long CSV writers and readers, the array data frame and the Matrix form. "
+        text="PARTIAL (pandas' CSV text layer - dtype inference, NaN handling, date parsing, float formatting - is library behaviour outside the model, correspondence only; the row algebra is proved). 46 kernel-checked theorems, none open. Row-algebra model of the wide/long CSV writers and readers, the array data frame and the Matrix form. "
              "Proved: slices_preserved_keys (decide over the group-by key lists regenerated from /repo: they contain "
              "the coordinates, all six metadata columns and the detail columns), groupKey_determines_metadata, "
              "slices_preserved_wide/long, rows_count_wide/long, fromWide_toWide and fromLong_toLong (cumulative triangles: "
@@ -223,10 +223,19 @@ CLAIMS = {
              "fromMatrix_toMatrix for triangles on the index grid, fromWide_toWide_incremental and fromLong_toLong_incremental "
              "(the one-row-per-cell incremental streams), matrixIndex_onGrid (the gcd-inferred Matrix index puts every contiguous "
              "month-aligned triangle on its grid) and fromMatrix_toMatrix_contiguous (default triangle_to_matrix call, no grid "
-             "hypothesis). Correspondence: CSV text parsed with Python's csv module vs the model's rows, "
+             "hypothesis). Round 6 brought the rest of the anchored code inside the model: the rich matrix "
+             "(triangle_to_rich_matrix / rich_matrix_to_triangle: fromRich_toRich as an exact equality for cumulative and incremental "
+             "triangles with arbitrary values, toRich_placement), MatrixIndex.from_triangle and triangle_to_matrix with all optional "
+             "arguments, the rest of io/array.py (parse_date, statics_data_frame_to_triangle incl. its days//30 inference with "
+             "statics_inference_table and statics_february_refused, triangle_to_right_edge_data_frame, array_triangle_builder) and the "
+             "in-memory data frames (column dtypes vs _check_index_columns: longFrame_never_reads_back, wideFrame_incremental_refused, "
+             "fromWideFrame_toWideFrame); fromWide_toWide covers sample triangles whose cells carry different field sets (D24). "
+             "Correspondence: CSV text parsed with Python's csv module vs the model's rows, "
              "from_*_csv(to_*_csv(t)) vs original and model for slices distinguished by any single attribute or "
              "detail, sample order through the scenario column, array-frame round trips over resolutions 1/3/6/12 and "
-             "every start month, Matrix round trips incl. quarterly periods evaluated annually and holey triangles.",
+             "every start month, Matrix round trips incl. quarterly periods evaluated annually and holey triangles, rich-matrix, "
+             "statics, right-edge and in-memory-frame streams, ragged field sets, falsy-everywhere detail columns, twin files that "
+             "differ only in column names loaded in one process; chainladder round trip Spec-only (third-party).",
         note=COMMON_NOTE + "pandas (dtype inference, NaN handling, date parsing, float formatting) is the trusted/opaque "
              "layer; size-1/0-d arrays are canonicalised to their scalar as the property states 'numeric values as floats'.",
         tech="Lean 4 theorems over regenerated group-by tables + row-model differential correspondence"),
